@@ -21,7 +21,7 @@ from sim.coordinator import PY, Pool, default_workers, zygote_env  # noqa: E402
 from sim.minimise import Minimiser  # noqa: E402
 
 BUDGET = {  # wall-clock budgets in seconds per phase
-    "quick": {"diff": 8, "random": 16, "xproc": 110, "crash_jobs": {"C17": 12, "C18": 26}, "sweep_len": 2},
+    "quick": {"diff": 8, "random": 16, "xproc": 110, "crash_jobs": {"C17": 12, "C18": 20}, "sweep_len": 2},
     "thorough": {"diff": 240, "random": 420, "xproc": 4000, "crash_jobs": {"C17": 10**6, "C18": 10**6}, "sweep_len": 3},
 }
 
